@@ -459,6 +459,62 @@ fn mixture_events(tr: &mut Tr, args: &Args, rng: &mut Rng) {
     }
 }
 
+// ------------------------------------------------------------------------------------------------ liquid-liquid systems
+/// Partially miscible systems (water / alkane, methanol / cyclohexane): the two liquid phases from a flash of the equimolar feed span a tie line;
+/// feeds z = x_a + lambda (x_b - x_a) with lambda in (0,1) are strictly inside the two-phase region (unstable, the flash must split into the same two
+/// phases), feeds slightly beyond either end are single-phase (stable).
+fn lle_events(tr: &mut Tr, args: &Args, rng: &mut Rng) {
+    use crate::zoo::{from_json_str, shipped};
+    let rec = |file: &str, name: &str| -> Value { serde_json::from_str::<Vec<Value>>(&shipped(file, &[name])).unwrap()[0].clone() };
+    let systems: Vec<(&str, Vec<Value>, f64, Vec<f64>)> = vec![
+        ("water_4C_polar+hexane", vec![rec("pcsaft/rehner2020.json", "water_4C_polar"), rec("pcsaft/gross2001.json", "hexane")], 0.0, vec![290.0, 320.0]),
+        ("water_2B+octane", vec![rec("pcsaft/rehner2020.json", "water_2B"), rec("pcsaft/gross2001.json", "octane")], 0.0, vec![300.0, 340.0]),
+        ("methanol+cyclohexane", vec![rec("pcsaft/gross2002.json", "methanol"), rec("pcsaft/gross2001.json", "cyclohexane")], 0.051, vec![280.0, 300.0]),
+    ];
+    for (name, recs, kij, temps) in systems {
+        // the quick tier keeps to the first system
+        if !args.thorough && !name.starts_with("water_4C_polar") { continue; }
+        let kj = format!("{{\"k_ij\":{}}}", kij);
+        let Ok(p) = guarded(std::panic::AssertUnwindSafe(|| Arc::new(from_json_str::<PcSaftParameters>(&serde_json::to_string(&recs).unwrap(), &[((0, 1), kj.as_str())])))) else { continue };
+        let eos = Arc::new(M::PcSaft(PcSaft::new(p)));
+        for &tk in &temps {
+            for pbar in [1.0, 5.0] {
+                let t = Temperature::from_reduced(tk);
+                let p = pbar * BAR;
+                let feed = Moles::from_reduced(arr1(&[0.5, 0.5]));
+                let Ok(f0) = g(|| PhaseEquilibrium::tp_flash(&eos, t, p, &feed, None, opts(), None)) else {
+                    tr.ev(json!({"ev":"LleSkip","case":name,"T":fs(tk),"why":"equimolar flash did not split"})); continue };
+                let (xa, xb) = (f0.vapor().molefracs.clone(), f0.liquid().molefracs.clone());
+                // any two-phase split of a binary at fixed (T, p) spans a tie line; require clearly different phases
+                if (xa[0] - xb[0]).abs() < 0.2 { tr.ev(json!({"ev":"LleSkip","case":name,"T":fs(tk),"why":"phases too similar"})); continue; }
+                let case = format!("lle:{}:{}K:{}bar", name, tk, pbar);
+                for lam in [0.005, 0.01, 0.02, 0.1, 0.3, 0.5, 0.7, 0.9, 0.98, 0.99, 0.995] {
+                    let z = &xa + &((&xb - &xa) * lam);
+                    let zf = Moles::from_reduced(z.clone());
+                    let fl = g(|| PhaseEquilibrium::tp_flash(&eos, t, p, &zf, None, opts(), None));
+                    tr.ev(json!({"ev":"Flash","case":case,"calibrated":false,"grid":format!("tie line lambda={}", lam),"T":fs(tk),"p":fs(p.to_reduced()),"feed":fv(zf.to_reduced().iter()),
+                        "inside": fs(lam), "res":eq2(&fl),"guesses":[]}));
+                    if let Ok(s) = State::new_npt(&eos, t, p, &zf, DensityInitialization::None) {
+                        stability_event(tr, &case, &eos, t, s.density, &z, "unstable");
+                    }
+                }
+                // converged phases are stable; slightly beyond the ends of the tie line the feed is one stable liquid
+                for ph in [f0.vapor(), f0.liquid()] {
+                    stability_event(tr, &case, &eos, ph.temperature, ph.density, &ph.molefracs, "stable");
+                }
+                for lam in [-0.05, 1.05] {
+                    let z = &xa + &((&xb - &xa) * lam);
+                    if z.iter().any(|&v| v <= 0.0) { continue; }
+                    let zf = Moles::from_reduced(z.clone());
+                    if let Ok(s) = State::new_npt(&eos, t, p, &zf, DensityInitialization::None) {
+                        stability_event(tr, &case, &eos, t, s.density, &z, "stable");
+                    }
+                }
+            }
+        }
+    }
+}
+
 pub fn run(args: &Args) {
     let mut tr = Tr::create(&args.out);
     let mut rng = Rng::new(args.seed ^ 0x04);
@@ -468,6 +524,9 @@ pub fn run(args: &Args) {
     }
     if which == "all" || which == "mix" {
         mixture_events(&mut tr, args, &mut rng);
+    }
+    if which == "all" || which == "mix" || which == "lle" {
+        lle_events(&mut tr, args, &mut rng);
     }
     let n = tr.finish();
     println!("equilibrium trace: {} lines", n);
